@@ -295,9 +295,10 @@ def inversionEnabler (op : LinOp V) (approx : Option (LinOp V)) (c : Ctrl K τ)
   else
     -- the preconditioner raises on its first use, which is only reached when `start` says CONTINUE
     match c.start (obs S E) with
-    | some (_, st) => if st ≠ .continue_ then
-        .solved E.pos { energy := E, status := st, reason := .ctrlStart, ctrl := none, checked := [E], made := [],
-                        iters := [] }
+    | some (_, st) =>
+      if st ≠ .continue_ then
+        let run := cg S c 20 fuel E      -- returns right after `start`, before the preconditioner is touched
+        .solved run.energy.pos run
       else .notImplemented
     | none => .raised
 
